@@ -470,7 +470,7 @@ fn run_child_json(scenario: &J, env: &Env, st: &mut Stats) -> Result<J, Failure>
     }
 }
 
-fn run_held(a: &str, stage: u64, bs: &[&str], env: &Env, st: &mut Stats) -> CaseResult {
+pub fn run_held(a: &str, stage: u64, bs: &[&str], env: &Env, st: &mut Stats) -> CaseResult {
     let scenario = json!({"mode": "held", "a": a, "stage": stage, "b": bs, "grace_ms": 25});
     st.eval();
     st.hist(&format!("held:stage{}", stage));
